@@ -15,6 +15,7 @@ from ..monitor import call_real, describe_exc, exc_site, reach
 
 ID = 'C05'
 LEVEL = 'exploration'
+DEBUG_TOGGLE = True  # runner flips the library debug flag every 97 monitored executions
 TECHNIQUE = 'runtime monitoring: reference-model monitor of view geometry (own heading tables: view cell (i,j) -> world cell) on every observation produced by the real observation functions; exhaustive pose x area product on a 3x4 grid each run'
 LEVEL_TEXT = ('Every observation returned by the real (factory-built) observation functions is checked cell by cell against a '
               'first-principles map view cell -> world cell: the cell must be Hidden or deep-equal to that world cell, cells '
@@ -208,6 +209,8 @@ def shipped(ctx, seeds, steps):
 
 
 def run(ctx):
+    from .. import custom_objects
+    custom_objects.enable(curtain=True)  # user-defined object types join the generators' pool (flags, not types, must decide)
     with reach(ctx, [observation_fs.from_visibility, grid_mod.Grid.subgrid, grid_mod.Grid.__mul__]):
         exhaustive(ctx)
         random_cases(ctx, ctx.pick(500, 12000))
@@ -217,6 +220,8 @@ def run(ctx):
 
 
 def replay(ctx, kind, payload):
+    from .. import custom_objects
+    custom_objects.enable(curtain=True)
     state = enc.state_from_json(payload['state'])
     area = obsgen.area_from_json(payload['area'])
     if 'hist_key' in payload:  # state reached through the real dynamics: regenerate that history
